@@ -114,6 +114,8 @@ fn raw_bytes(len: usize) -> BoxedStrategy<(Vec<u8>, &'static str)> {
         1 => vec(b'0'..=b'9', len).prop_map(|v| (v, "digits")),
         1 => vec(0usize..45, len).prop_map(|v| (v.into_iter().map(|i| ALNUM_SET[i]).collect(), "alnum")),
         1 => vec(32u8..127, len).prop_map(|v| (v, "printable")),
+        1 => crate::gens::with_token(vec(32u8..127, len).boxed()).prop_map(|v| (v, "with_token")),
+        1 => crate::gens::class_runs_of(len).prop_map(|v| (v, "class_runs")),
     ]
     .boxed()
 }
